@@ -610,6 +610,14 @@ pub fn gen_scenario_tfc(r: &mut Rng, proj: bool, proj_links: bool, groups: bool)
         let mut sets = Vec::new();
         for j in 0..n_fw { if r.chance(2, 3) { sets.push((j, r.below(7) as i64)); } }
         ops.push(Op::Session { sets, refresh: false });
+        if r.chance(1, 3) {
+            // the user asks for a firewall itself: no backward projection runs for that request, the dirt of
+            // the changed firewall has to travel through the (chains of) projections above it on its own;
+            // the next session then voids the pending marks
+            ops.push(Op::Query(Node { kind: Kind::Firewall, idx: r.below(n_fw as u64) as u32 }));
+            let other = if n_flat > 0 { fl0 } else if n_ghost > 0 { sw0 } else { 0 };
+            ops.push(Op::Session { sets: vec![(other, r.below(4) as i64)], refresh: false });
+        }
         for t in &tops { if r.chance(3, 4) { ops.push(Op::Query(*t)); } }
         if r.chance(1, 4) { ops.push(Op::Query(*r.pick(&mids))); }
     }
